@@ -1,0 +1,12 @@
+//go:build verif
+
+package dir
+
+import "github.com/mit-pdos/go-journal/common"
+
+// VerifDecodeDirEnt decodes one on-disk directory entry with the package's
+// own decoder.
+func VerifDecodeDirEnt(d []byte) (common.Inum, string) {
+	de := decodeDirEnt(d)
+	return de.inum, de.name
+}
